@@ -54,5 +54,77 @@ package jen
 //@   ensures [C03,C18] unaliased: (f.path != path && path != "C" && !old(proper(f.imports[path])) && !f.imports[path].alias) ==>
 //@       ((f.hints[path].name == result && !f.hints[path].alias) || (f.hints[path].name == "" && standardLibraryHints[path] == result))
 //@   ensures [C18] stdhit: (f.path != path && path != "C" && !old(proper(f.imports[path])) && f.hints[path].name == "" && standardLibraryHints[path] != "" && !f.imports[path].alias) ==> result == standardLibraryHints[path]
+//@   free ensures functional: result == regName(Fof(f), old(mapof(f.imports)), path) && mapof(f.imports) == regImp(Fof(f), old(mapof(f.imports)), path)
 //@   loop 1 invariant cand: (i == 0 && unique == name) || (i >= 1 && unique == name + itoa(i))
 //@   loop 1 invariant named: name != "" && name != "_" && (name == "." || goIdent(name)) && (i >= 1 ==> name != ".")
+
+// ---- rendering ----
+
+//@ interface Code.isNull(c; f)
+//@   requires f != nil
+//@   free requires tree: treeOK()
+//@   ensures [C13,C06,C08,C04] spec: result == null(c, Fof(f), mapof(f.imports))
+
+//@ interface Code.render(c; f, w, s)
+//@   requires recv: c != C_nil && c != C_pGroup(nil) && c != C_pStatement(nil) && wfC(c)
+//@   requires file: regpre(f)
+//@   free requires tree: treeOK()
+//@   modifies written[w], nwrites[w], failed[w], mapof(f.imports)
+//@   ensures [C01,C13,C03,C06,C11,C12,C15] spec: err == nil ==> StOf(w, f) == R(c, s, Fof(f), old(StOf(w, f)))
+//@   ensures file: regpre(f)
+//@   ensures [C08,C03] stable: stable(old(mapof(f.imports)), mapof(f.imports))
+
+//@ func (token).isNull [C13,C06,C08,C04]
+//@   implements Code.isNull
+//@   requires wfTok(t)
+
+//@ func (comment).isNull [C13,C15]
+//@   implements Code.isNull
+
+//@ func (tag).isNull [C13,C17]
+//@   implements Code.isNull
+
+//@ func (*Group).isNull [C13,C04]
+//@   implements Code.isNull
+
+//@ func (*Group).isNullItems [C13,C04]
+//@   requires f != nil && g != nil
+//@   free requires tree: treeOK()
+//@   ensures [C13] spec: result == allNull(g.items, Fof(f), mapof(f.imports))
+//@   loop 1 invariant sofar: forall j int :: { g.items[j] } (0 <= j && j < $i) ==> (g.items[j] == C_nil || null(g.items[j], Fof(f), mapof(f.imports)))
+
+//@ func (*Statement).isNull [C13,C04]
+//@   implements Code.isNull
+//@   loop 1 invariant sofar: forall j int :: { (*s)[j] } (0 <= j && j < $i) ==> ((*s)[j] == C_nil || null((*s)[j], Fof(f), mapof(f.imports)))
+
+//@ func (comment).render [C15,C01]
+//@   implements Code.render
+
+//@ func (token).render [C01,C03,C11,C12,C13]
+//@   implements Code.render
+
+//@ func (*Statement).previous [C01]
+//@   requires s != nil
+//@   ensures spec: result == prevAt(*s, 0, c)
+//@   loop 1 invariant scan: index == 0 - 1 && prevAt(*s, $i, c) == prevAt(*s, 0, c)
+
+//@ func (*Statement).render [C01,C13]
+//@   implements Code.render
+//@   loop 1 invariant rs: RS(*s, $i, first, s, Fof(f), StOf(w, f)) == RS(*s, 0, true, s, Fof(f), old(StOf(w, f)))
+//@   loop 1 invariant file: regpre(f) && stable(old(mapof(f.imports)), mapof(f.imports))
+
+//@ func (*Group).renderItems [C01,C13,C03,C06,C04]
+//@   requires g != nil
+//@   requires file: regpre(f)
+//@   free requires tree: treeOK()
+//@   modifies written[w], nwrites[w], failed[w], mapof(f.imports)
+//@   ensures [C13,C01] spec: err == nil ==> (StOf(w, f) == RI(g.items, 0, true, g.separator, g.multi, Fof(f), old(StOf(w, f))).st
+//@       && isNull == RI(g.items, 0, true, g.separator, g.multi, Fof(f), old(StOf(w, f))).first)
+//@   ensures file: regpre(f)
+//@   ensures [C08,C03] stable: stable(old(mapof(f.imports)), mapof(f.imports))
+//@   panics [C16] values-dict: g.name == "values" && len(g.items) > 1
+//@   loop 1 invariant ri: RI(g.items, $i, first, g.separator, g.multi, Fof(f), StOf(w, f)) == RI(g.items, 0, true, g.separator, g.multi, Fof(f), old(StOf(w, f)))
+//@   loop 1 invariant file: regpre(f) && stable(old(mapof(f.imports)), mapof(f.imports))
+
+//@ func (*Group).render [C01,C13,C08,C09,C15]
+//@   implements Code.render
